@@ -5,12 +5,15 @@
 set -eu
 cd "$(dirname "$0")"
 . ./env.sh
+VERIF_BIN=${VERIF_BIN_DIR:-.build/bin}; case "$VERIF_BIN" in /*) ;; *) VERIF_BIN=$VERIF_ROOT/$VERIF_BIN;; esac; mkdir -p "$VERIF_BIN"
 pkgs_of() {
   case "$1" in
     q)    echo "./internal/containers/mpmc ./internal/containers/mpsc" ;;
     pipe) echo "./internal/containers/... ./internal/listobjects/pipeline ./internal/listobjects/pipeline/internal/..." ;;
     iter) echo "./pkg/storage/storagewrappers/sharediterator" ;;
     red)  echo "./internal/graph ./internal/concurrency github.com/sourcegraph/conc github.com/sourcegraph/conc/pool github.com/sourcegraph/conc/panics" ;;
+    citer) echo "./pkg/storage/storagewrappers ./internal/shared golang.org/x/sync/singleflight" ;;
+    tsres) echo "golang.org/x/sync/singleflight" ;;
     *) return 1 ;;
   esac
 }
@@ -20,6 +23,8 @@ main_of() {
     pipe) echo ./internal/verifh/cmd/pipe ;;
     iter) echo ./internal/verifh/cmd/iter ;;
     red)  echo ./internal/verifh/cmd/red ;;
+    tsres) echo ./internal/verifh/cmd/tsres ;;
+    citer) echo ./internal/verifh/cmd/citer ;;
   esac
 }
 if [ "${1:-}" = "--is-variant" ]; then pkgs_of "$2" >/dev/null 2>&1; exit $?; fi
@@ -31,7 +36,7 @@ if [ ! -x .build/bin/vgen ] || [ tools/vgen/main.go -nt .build/bin/vgen ]; then
 fi
 gen=.build/gen-$v.$$
 rm -rf "$gen"; mkdir -p "$gen"
-flags=""; [ "$v" = iter ] && flags="-time"
+flags=""; [ "$v" = iter -o "$v" = citer ] && flags="-time"
 (cd "$REPO" && "$VERIF_ROOT/.build/bin/vgen" $flags -dir "$REPO" -out "$VERIF_ROOT/$gen" ${VERIF_EXTRA_OVERLAY:+-overlay "$VERIF_EXTRA_OVERLAY"} $pkgs)
 # Files beneath GOMODCACHE cannot be overlaid: instrumented third-party packages are materialised as a
 # copy of their module (rewritten files copied over) and wired in with a replace directive in the
@@ -63,10 +68,10 @@ for moddir, dst in mods.items():
     subprocess.check_call(["go", "mod", "edit", "-replace=" + path + "=" + dst, modfile])
 PY
 python3 tools/mkoverlay.py "$gen/ov.json" ${VERIF_EXTRA_OVERLAY:+--merge "$VERIF_EXTRA_OVERLAY"} --merge "$gen/overlay.json"
-(cd "$REPO" && go build -modfile="$VERIF_MODFILE" -tags verif -overlay "$VERIF_ROOT/$gen/ov.json" -o "$VERIF_ROOT/.build/bin/$v" $(main_of "$v"))
+(cd "$REPO" && go build -modfile="$VERIF_MODFILE" -tags verif -overlay "$VERIF_ROOT/$gen/ov.json" -o "$VERIF_BIN/$v" $(main_of "$v"))
 if [ "$v" = q ] && [ "${VERIF_TIER:-quick}" = thorough -o -n "${VERIF_BUILD_RACE:-}" ]; then
   # free-running -race companion (uninstrumented sources; overlay only provides the harness package)
   python3 tools/mkoverlay.py "$gen/ov-plain.json" ${VERIF_EXTRA_OVERLAY:+--merge "$VERIF_EXTRA_OVERLAY"}
-  (cd "$REPO" && go build -race -modfile="$VERIF_MODFILE" -tags verif -overlay "$VERIF_ROOT/$gen/ov-plain.json" -o "$VERIF_ROOT/.build/bin/qrace" ./internal/verifh/cmd/qrace)
+  (cd "$REPO" && go build -race -modfile="$VERIF_MODFILE" -tags verif -overlay "$VERIF_ROOT/$gen/ov-plain.json" -o "$VERIF_BIN/qrace" ./internal/verifh/cmd/qrace)
 fi
 rm -rf ".build/gen-$v"; mv "$gen" ".build/gen-$v"
